@@ -21,7 +21,7 @@ ASSUMPTIONS = ["models/membank.py: lockable locations are writeable only while t
                "hold exactly the requested bytes"]
 EXHAUSTIVE = {"quick": False, "thorough": False}
 REQUIRED_ANCHORS = {"all": ["writes_ok", "refused_readonly", "length_rejected", "faults_injected", "must_raise_cases",
-                            "unit_variants", "relock_checked", "history_writes", "first_use_writes"]}
+                            "unit_variants", "relock_checked", "history_writes", "first_use_writes", "interleaved_pairs"]}
 SHARD_TIMEOUT = {"quick": 600, "thorough": 3000}
 BANKS = ["0", "0L", "1", "202", "203", "204", "205", "206", "207"]
 DOCUMENTED = ("MemoryLocationNotWriteable", "MemoryWriteFailure", "ResponseError")
@@ -30,7 +30,7 @@ DOCUMENTED = ("MemoryLocationNotWriteable", "MemoryWriteFailure", "ResponseError
 def plan(tier, seed):
     reps = 1 if tier == "quick" else 24
     return [{"bank": b, "rep": rep, "datas": 5 if tier == "quick" else 8} for b in BANKS for rep in range(reps)] + \
-        [{"bank": "synthetic"}] + \
+        [{"bank": "synthetic"}, {"bank": "interleaved", "n": 200 if tier == "quick" else 4000}] + \
         [{"bank": "first-use", "first": f} for f in ({"force_unlock": True}, {"allow_short_write": True},
                                                      {"ignore_feedback": True}, {})]
 
@@ -454,6 +454,28 @@ def run_synthetic(seed, res):
     res.sample({"synthetic_values": n, "access_combinations": "all of width 1..3 over 6 access classes"})
 
 
+def run_interleaved(desc, seed, res):
+    from props import pairs
+    from models.bus import Bus
+    _mods()
+    allv = []
+    for bk in BANKS:
+        bank_obj, values = values_of(bk)
+        allv += [(bk, n, c, row) for (n, c, row) in values if row.writable and n != "LockByte"]
+
+    def mk_write(rr):
+        bk, name, cls, row = rr.choice(allv)
+        unit, other, bank, ob, addr = make_unit(rr, bk, rr.choice(["gear", "device", "int"]), rr.choice([0xFF, 0x55, 0x00, 0xAA]))
+        short = rr.random() < 0.3
+        n = rr.randint(1, row.width) if short else row.width
+        raw = bytes(rr.getrandbits(8) for _ in range(n))
+        kw = {"allow_short_write": True} if short else {}
+        if rr.random() < 0.2:
+            kw["force_unlock"] = True
+        return Bus([unit, other], bound=800), cls.write_raw(addr, raw, **kw), lambda: list(bank.image)
+    pairs.differential(res, "C10", rng(seed, "C10", "interleaved"), {"write_raw": mk_write}, desc["n"])
+
+
 def run_shard(desc, tier, seed):
     res = Result()
     if "replay" in desc:
@@ -468,6 +490,8 @@ def run_shard(desc, tier, seed):
         run_synthetic(seed, res)
     elif desc["bank"] == "first-use":
         run_first_use(desc, tier, seed, res)
+    elif desc["bank"] == "interleaved":
+        run_interleaved(desc, seed, res)
     else:
         run_bank(desc, tier, seed, res)
     return res
